@@ -345,3 +345,91 @@ def prove_abstracted(assumptions, goal, timeout_ms):
             return "z3-%s (grounded, UF-abstracted %s)" % (z3.get_version_string(),
                                                             "nlsat" if mk is z3.Solver else "smt")
     return None
+
+
+# ---------------------------------------------------------------------------------------------
+# bounded-instance refutation for obligations the provers leave open
+
+def _int_consts(fs):
+    out, seen = {}, set()
+    stack = list(fs)
+    while stack:
+        x = stack.pop()
+        i = x.get_id()
+        if i in seen:
+            continue
+        seen.add(i)
+        if z3.is_quantifier(x):
+            stack.append(x.body())
+            continue
+        if z3.is_app(x):
+            if x.num_args() == 0 and x.decl().kind() == z3.Z3_OP_UNINTERPRETED and z3.is_int(x):
+                out[x.decl().name()] = x
+            stack.extend(x.children())
+    return out
+
+
+def _expand(f, dom_int, ground_reals, depth=0):
+    """expand top-level universally quantified conjuncts over a finite domain"""
+    if z3.is_and(f):
+        out = []
+        for c in f.children():
+            out.extend(_expand(c, dom_int, ground_reals, depth))
+        return out
+    if z3.is_quantifier(f) and f.is_forall():
+        nv = f.num_vars()
+        doms = []
+        for k in range(nv):
+            s = f.var_sort(k)
+            if s.kind() == z3.Z3_INT_SORT:
+                doms.append(dom_int)
+            elif s.kind() == z3.Z3_REAL_SORT:
+                doms.append(ground_reals or [z3.RealVal(1)])
+            else:
+                return [f]
+        import itertools
+        total = 1
+        for d in doms:
+            total *= len(d)
+        if total > 400:
+            return [f]
+        out = []
+        for combo in itertools.product(*doms):
+            # de Bruijn: variable 0 is the LAST bound variable
+            inst = z3.substitute_vars(f.body(), *reversed(combo))
+            out.extend(_expand(inst, dom_int, ground_reals, depth + 1) if depth < 2 else [inst])
+        return out
+    return [f]
+
+
+def refute_bounded(assumptions, goal, size=2, timeout_ms=20000):
+    """search for a counter-model of a bounded instance: all size-like integer constants are <= size,
+    universally quantified assumptions are expanded over the index domain 0..size (and over the
+    ground real terms for real-sorted variables).  Returns a model or None."""
+    fs = flatten(assumptions)
+    consts = _int_consts(fs + [goal])
+    sizeish = [c for n, c in consts.items() if n in ("NB", "NN", "NE", "NL", "NQ", "NHC", "NIDX", "NLOOKUP")
+               or n.startswith(("cnt!", "ngroups!", "npairs!", "NB", "NN"))]
+    dom = [z3.IntVal(k) for k in range(0, size + 1)]
+    apps, seen = [], set()
+    for f in fs + [goal]:
+        _collect_apps(f, apps, seen)
+    reals = {}
+    for ap in apps:
+        for k in range(ap.num_args()):
+            a = ap.arg(k)
+            if z3.is_real(a) and not z3.is_quantifier(a):
+                reals[a.get_id()] = a
+    ground_reals = list(reals.values())[:6]
+    s = z3.SimpleSolver()
+    s.set("timeout", timeout_ms)
+    s.set("rlimit", RLIMIT)
+    for c in sizeish:
+        s.add(c <= size)
+    for f in fs:
+        for g in _expand(f, dom, ground_reals):
+            s.add(g)
+    s.add(z3.Not(goal))
+    if s.check() == z3.sat:
+        return s.model()
+    return None
